@@ -789,5 +789,5 @@ func checkParserBounds(c *core.Ctx, p *load.Prog, rule string) {
 		c.Check(rule, r.key, r.pos, r.ok, r.why)
 	}
 	c.Count("parser_index_sites", nSites)
-	c.Floor("parser_index_sites", 20)
+	c.Floor("parser_index_sites", 10)
 }
